@@ -353,7 +353,15 @@ def _add_evict(P, R):
             a, b = fmt_sym(v[2][0], maxdepth=14), fmt_sym(A.inline_sym(P, v[2][1]), maxdepth=14)
             return a.endswith("event.metadata.timestamp") and "as_millis(self.duration)" in b
         return False
-    if st and any(_is_start(x) for x in st):
+    def _from_checked_sub(stx):
+        return any(x[0] == "call" and x[1].endswith("checked_sub") for x in walk(rec.sym_rvalue(stx[2][4])))
+    ends = [bb for (bb, j, s_) in A.stores_to_field(rec, "end_time", TW) if j >= 0]
+    skipped = [x for x in st if _from_checked_sub(x) and ends and not any(rec.dominates(x[0], e) for e in ends)]
+    if skipped:
+        # `if let Some(s) = now.checked_sub(d) { self.start_time = s }`: when now < duration the lower bound keeps its old value
+        # while the upper bound moves - the retain that follows then drops events within `duration` of the one just recorded
+        R.violate("c", "record:start-conditional", "record updates start_time only when `now - duration` does not underflow (checked_sub): for an event time below the duration the trailing bound keeps a stale, larger value and the eviction drops younger events, the recorded one included", rec, skipped[0][2][0])
+    elif st and any(_is_start(x) for x in st):
         R.hold("c", "record: start_time = now.saturating_sub(duration_ms)", fn=rec)
     elif st and not any(strip(rec.sym_rvalue(x[2][4]))[0] == "call" and strip(rec.sym_rvalue(x[2][4]))[1].endswith(("saturating_sub", "wrapping_sub", "checked_sub")) or strip(rec.sym_rvalue(x[2][4]))[0] == "bin" for x in st):
         R.undecide("c", "record:start", "record's store to start_time is not a subtraction this rule reads (%s)" % fmt_sym(rec.sym_rvalue(st[0][2][4]), maxdepth=6)[:80], rec)
